@@ -8,7 +8,7 @@
     prescribes.  [op_ok]: batches are non-empty with positions in [0, MaxInt32), Remove has 0 <= begin <= end. *)
 From Coq Require Import List ZArith NArith Bool Arith Lia Permutation.
 From V Require Import KvCache.Model KvCache.ProofsList KvCache.ProofsInv KvCache.ProofsDefrag KvCache.ProofsOps
-  KvCache.ProofsFwd KvCache.ProofsRefine KvCache.ProofsFindings KvCache.ProofsWindow KvCache.ProofsWrapper KvCache.ProofsEnc.
+  KvCache.ProofsFwd KvCache.ProofsRefine KvCache.ProofsFindings KvCache.ProofsWindow KvCache.ProofsWrapper KvCache.ProofsEnc KvCache.ProofsCausal.
 From V Require KvCache.Spec.
 Import ListNotations.
 Open Scope Z_scope.
@@ -331,6 +331,27 @@ Theorem C06_wrapper_full_is_error : forall c0 c1 s0 s1 batch,
     (s1' = s1 \/ Spec.s_cells s1' = Spec.evict (Spec.s_window s1) batch (Spec.s_cells s1)).
 Proof. exact wrapper_full_fresh. Qed.
 Print Assumptions C06_wrapper_full_is_error.
+
+(** *** SetCausal (CausalOptions.Except, gemma3 image batches).  Inside a pass, after any sequence of SetCausal calls (each
+    with a context) the mask Get returns is the one of the exemption list given LAST: a token that is not exempt has exactly
+    its causal row - the row StartForward built, to which [C06_visible_exact] applies - and after a reset to the empty list the
+    whole mask is the causal mask again, whatever was exempt before.  Across passes nothing is carried: StartForward
+    ([start_forward], whose mask [C06_visible_exact] describes) does not depend on earlier SetCausal calls. *)
+Theorem C06_set_causal_exact : forall c pr batch calls,
+  let ps := run_calls c pr batch (mkPass [] (causal_rows c pr batch)) calls in
+  p_vis ps = rows_ex c pr batch (last calls []) /\
+  (forall i q p t, nth_error batch i = Some (q, p, t) -> existsb (Nat.eqb i) (last calls []) = false ->
+     nth_error (p_vis ps) i = Some (mask_row (window c) (cells c) pr q p)) /\
+  (last calls [] = [] -> p_vis ps = causal_rows c pr batch).
+Proof.
+  intros c pr batch calls. cbv zeta.
+  assert (H0 : pass_ok c pr batch (mkPass [] (causal_rows c pr batch))) by (unfold pass_ok; simpl; symmetry; apply rows_ex_nil).
+  destruct (set_causal_run calls c pr batch _ H0) as [H1 H2]. simpl in H2. unfold pass_ok in H1. rewrite H2 in H1.
+  split; [exact H1|]. split.
+  - intros i q p t Hn He. rewrite H1. eapply rows_ex_not_exempt; eauto.
+  - intros E. rewrite H1, E. apply rows_ex_nil.
+Qed.
+Print Assumptions C06_set_causal_exact.
 
 (** *** Backend faults.  The only error-returning backend calls inside the cache are the mask upload in StartForward and,
     in Remove's shift, the upload of the offsets and the model's shift function ([start_forward_fault], [remove_fault]:
